@@ -2,7 +2,7 @@
 (* C16: every file written by the real code is read by the Smf automaton       *)
 (* (one TLC step per header / chunk header / event) and the decoded events      *)
 (* are compared with the events the program denotes (MidiSem).                  *)
-EXTENDS MidiSem, Smf, TLC, Json, IOUtils
+EXTENDS MidiWriterImpl, Smf, TLC, Json, IOUtils
 Trace == ndJsonDeserialize(IOEnv.TRACE)
 VARIABLES l,          \* current record
           ph,         \* "start" | "chunk" | "event" | "verdict"
@@ -78,10 +78,19 @@ FileClause ==
     ELSE IF \E i \in 1..Len(tracks) : TrackClause(i) # "ok"
          THEN TrackClause(CHOOSE i \in 1..Len(tracks) : TrackClause(i) # "ok" /\ \A j \in 1..(i - 1) : TrackClause(j) = "ok")
     ELSE "ok"
+\* model conformance (information only): the decoded event sequence is exactly what the implementation-shaped writer emits
+TrackFull(t) == [name |-> t.name, instr |-> [kind |-> t.instr.kind, nr |-> t.instr.nr],
+                 bars |-> [i \in 1..Len(t.bars) |-> [key |-> t.bars[i].key, meter |-> <<t.bars[i].meter[1], t.bars[i].meter[2]>>,
+                             entries |-> [j \in 1..Len(t.bars[i].entries) |-> [t |-> t.bars[i].entries[j].t, rest |-> t.bars[i].entries[j].rest, bpm |-> t.bars[i].entries[j].bpm,
+                                            notes |-> [k \in 1..Len(t.bars[i].entries[j].notes) |-> Note4(t.bars[i].entries[j].notes[k])]]]]]]
+ModelOf(i) == IF P.writer = "bar" THEN WriteBar(TrackFull(P.tracks[1]).bars[1], P.bpm, P.repeat) ELSE WriteTrack(TrackFull(P.tracks[i]), P.bpm, P.repeat)
+DriftClause == IF err = "" /\ P.writer \in {"track", "composition", "bar"} /\ Len(tracks) = Len(P.tracks)
+                  /\ \E i \in 1..Len(tracks) : tracks[i] # ModelOf(i)
+               THEN "DRIFT:model-of-MidiTrack-differs-from-code" ELSE "ok"
 VlqClause == IF Rec.out = Vlq(Rec.in.n) /\ VlqDecode(Rec.out) = Rec.in.n /\ VlqWellFormed(Rec.out) THEN "ok" ELSE "variable-length-quantity"
 Note(c) == /\ bad' = IF c = "ok" THEN bad ELSE bad \cup {<<l, c>>}
            /\ nbad' = IF c = "ok" THEN nbad ELSE nbad + 1
-Verdict == /\ ph = "verdict" /\ Note(FileClause)
+Verdict == /\ ph = "verdict" /\ Note(IF FileClause = "ok" THEN DriftClause ELSE FileClause)
            /\ l' = l + 1 /\ ph' = "start" /\ pos' = 1 /\ chunkEnd' = 0 /\ declared' = 0 /\ tick' = 0 /\ running' = 0
            /\ evs' = <<>> /\ tracks' = <<>> /\ err' = ""
 VlqStep == /\ l <= Len(Trace) /\ ph = "start" /\ Rec.op = "vlq" /\ Note(VlqClause)
